@@ -313,9 +313,20 @@ func cmdCheck(args []string) int {
 	bySolverSecs := map[string]float64{}
 	canaries, canaryOK := 0, 0
 	var attempted []string
+	// a refuted obligation is assumed afterwards (assert-then-assume), which makes the rest of
+	// that unit's path contradictory: its unreachable canaries are a consequence, not a finding
+	refutedUnit := map[*Unit]bool{}
+	for _, o := range todo {
+		if !o.Canary && o.Result == "sat" && o.unit != nil {
+			refutedUnit[o.unit] = true
+		}
+	}
 	for _, o := range todo {
 		if o.Canary {
 			canaries++
+			if o.Result == "unsat" && refutedUnit[o.unit] {
+				continue
+			}
 			if _, dead := cfg.DeadSites[o.Name]; dead && o.Result == "unsat" {
 				canaryOK++
 			} else if o.Result == "unsat" {
